@@ -87,16 +87,21 @@ PROPS = {
     "C01": dict(families=plan("core_s", "ref_s", "pick_q"), random=RND),
     "C02": dict(random=RND, families=plan("bind_s", "nest_s")),
     "C03": dict(random=RND, families=plan("leak_s", "bind_s")),
-    "C04": dict(families=plan("leak_s", "xjoin_s"), profiles=["debug", "release"]),
+    "C04": dict(families=plan("leak_s", "xjoin_s"), profiles=["debug", "release"], random=dict(quick=24, thorough=300, len=40)),
     "C05": dict(random=RND, families=plan("obs_s", "pick_q")),
     "C06": dict(random=RND, families=plan("cut_s", "mwo_s")),
-    "C07": dict(random=RND, families=plan("obs_s", "var_s")),
-    "C08": dict(random=RND, families=plan("var_s")),
+    "C07": dict(random=RND, families=plan("obs_s", "eff_s")),
+    "C08": dict(random=RND, families=plan("var_s", "eff_s")),
     "C09": dict(random=RND, families=plan("obs_s")),
     "C10": dict(random=RND, families=plan("obs_s")),
     "C11": dict(random=RND, families=plan("obs_s", "bind_s")),
+    "C12": dict(random=RND, families=plan("own_s", "ownbind_s")),
+    "C13": dict(families=plan("panic_s"), profiles=["debug", "release"]),
     "C14": dict(families=plan("xjoin_s", "xsum_s")),
     "C15": dict(stage_modules=["stage_mapops"]),
-    "C17": dict(stage_modules=["stage_mapops"]),
+    "C16": dict(stage_modules=["stage_mapi"]),
+    "C17": dict(stage_modules=["stage_mapops", "stage_mapi"]),
     "C18": dict(stage_modules=["stage_symdiff"], stage_prop="C18"),
+    "C19": dict(families=plan("height_s", "misuse_s", "cycle_s"), profiles=["debug", "release"]),
+    "C20": dict(families=plan("memo_s")),
 }
